@@ -71,6 +71,18 @@ def run(repo, res):
                   'on %s shape `%s` the identifier at %s is registered as a binding of the current scope although the construct only reads '
                   'it (`for obj.attr in xs`, `with cm as table[key]` read obj / table / key): the name becomes a local and masks the outer '
                   'binding it refers to' % (cls, variant, ipath))
+    seen_nl = set()
+    for cls, variant, line in hyg['nonlocal_leak']:
+        k = '%s hands a nonlocal rebinding to the scope the definition stands in' % R.method_name(repo, cls)
+        if k in seen_nl:
+            continue
+        seen_nl.add(k)
+        res.check('C05-R5', k, False, line[0], line[1],
+                  'a function whose body rebinds a name under `nonlocal`: visiting the definition makes that name a local of the scope the '
+                  'definition stands in, without knowing that this scope owns it - with an owner further out (A > B > C, C rebinds a name '
+                  'of A) the name becomes a local of B and every read of it in B and C resolves there')
+    res.ob('C05-R5', 'a nonlocal rebinding does not become a local of the nearest enclosing scope', not hyg['nonlocal_leak'],
+           sample='def with `nonlocal n; n = ...` in its body: nothing is added to the enclosing scope\'s locals')
     res.ob('C05-R1', 'only the identifiers a construct binds are registered', not hyg['spurious'],
            sample='%d shape paths: every registered binding corresponds to a binder of the language reference' % hyg['n'])
     M.check_scopes(repo, res, 'C05-R2', 'C05-R3')
